@@ -271,6 +271,32 @@ let do_bc line =
      | K.DEos -> e ^ " D:eos")
   | _ -> "badcase"
 
+(* ---- stream header (C01/C10):  hd <ck> <etype> <ttype> <bsize> <isize> ; <hex of the stream given to the reader> ---- *)
+let do_hd line =
+  match split_on_semis line with
+  | ["hd"; ck; et; tt; bs; isz] :: [stream] :: _ ->
+    let cfg = { K.h_ck = ns ck; K.h_etype = ns et; K.h_ttype = ns tt; K.h_bsize = ns bs; K.h_isize = ns isz } in
+    (* writer side: the fields through the output bit stream model *)
+    let healthy _ = false in
+    let st = ref (K.new_obs (ns "1024")) in
+    List.iter (fun (v, w) -> let (s', _) = K.write_bits healthy !st v w in st := s') (K.header_fields cfg);
+    let (s2, _) = K.close healthy !st in
+    let h = "H:" ^ hex_of_bytes s2.K.o_out in
+    (* reader side *)
+    let bytes = if stream = "-" then [] else bytes_of_hex stream in
+    let src = { K.src_data = bytes; K.src_sched = [ns "3"; ns "1"; ns "0"]; K.src_failat = None; K.src_calls = K.N0 } in
+    let evalid e = (K.en_get_name (z_of_zar (zar_of_n e))) <> None in
+    let tvalid t = (K.tr_get_name (z_of_zar (zar_of_n t))) <> None in
+    let (_, res) = K.read_header evalid tvalid (K.new_ibs (ns "64") src) in
+    let p = match res with
+      | K.HOk c -> Printf.sprintf "ok:%s:%s:%s:%s:%s" (sn c.K.h_ck) (sn c.K.h_etype) (sn c.K.h_ttype) (sn c.K.h_bsize) (sn c.K.h_isize)
+      | K.HErr K.HBadType -> "err:type" | K.HErr K.HBadVersion -> "err:version"
+      | K.HErr K.HBadCk | K.HErr K.HBadEntropy | K.HErr K.HBadTransform -> "err:codec"
+      | K.HErr K.HBadBlockSize -> "err:bsize" | K.HErr K.HBadCrc -> "err:crc"
+      | K.HErr K.HEos -> "err:eos" | K.HErr K.HOldVersion -> "err:old" in
+    h ^ " P:" ^ p
+  | _ -> "badcase"
+
 let dispatch line =
   match words line with
   | [] -> ""
@@ -282,6 +308,7 @@ let dispatch line =
   | "nm" :: args -> do_nm args
   | "sq" :: _ -> do_sq line
   | "bc" :: _ -> do_bc line
+  | "hd" :: _ -> do_hd line
   | k :: _ -> "unknown " ^ k
 
 let () =
